@@ -48,6 +48,7 @@ type LoopSpec struct {
 	Invariants []*Clause
 	Decreases  *Clause
 	Complete   []string // tags: the loop is left only through its header (every element of a range is visited)
+	AtEnd      []*Clause // asserted at the end of every iteration (each back edge), over the body's variables
 }
 
 type AtCall struct {
@@ -421,10 +422,19 @@ func (p *Program) parseContractFile(fname string, f *ast.File) error {
 				}
 				continue
 			}
+			atEnd := false
+			if strings.HasPrefix(sub, "atend ") {
+				atEnd = true
+				sub = strings.TrimSpace(strings.TrimPrefix(sub, "atend "))
+			}
 			for _, txt := range p.expandPred(sub) {
 				cl, err := mkClause(txt)
 				if err != nil {
 					return err
+				}
+				if atEnd {
+					ls.AtEnd = append(ls.AtEnd, cl)
+					continue
 				}
 				if cl.Kind == "decreases" {
 					ls.Decreases = cl
@@ -434,8 +444,8 @@ func (p *Program) parseContractFile(fname string, f *ast.File) error {
 			}
 		case "at":
 			// at call <callee> assert#label expr   |   at store <Type.field> assert#label expr
-			if len(fields) < 5 || (fields[1] != "call" && fields[1] != "store") {
-				return bad("at call|store <target> assert#label expr")
+			if len(fields) < 5 || (fields[1] != "call" && fields[1] != "store" && fields[1] != "mapupdate") {
+				return bad("at call|store|mapupdate <target> assert#label expr")
 			}
 			callee := fields[2]
 			idx := strings.Index(l.text, callee) + len(callee)
@@ -450,7 +460,9 @@ func (p *Program) parseContractFile(fname string, f *ast.File) error {
 			if err != nil {
 				return err
 			}
-			if fields[1] == "store" {
+			if fields[1] == "mapupdate" {
+				cur.AtStores = append(cur.AtStores, &AtCall{Callee: "map:" + callee, Ordinal: ordinal, Clause: cl})
+			} else if fields[1] == "store" {
 				cur.AtStores = append(cur.AtStores, &AtCall{Callee: callee, Ordinal: ordinal, Clause: cl})
 			} else {
 				cur.AtCalls = append(cur.AtCalls, &AtCall{Callee: callee, Ordinal: ordinal, Clause: cl})
@@ -651,6 +663,10 @@ func (p *Program) bindAll() {
 			}
 			lpos := loopBodyPos(loops[n-1])
 			for _, cl := range ls.Invariants {
+				p.bindClause(c, cl, lpos, false)
+			}
+			for _, cl := range ls.AtEnd {
+				cl.Kind = "invariant"
 				p.bindClause(c, cl, lpos, false)
 			}
 			if ls.Decreases != nil {
